@@ -253,7 +253,7 @@ def in_python_domain(ctx, d, v, contract=None):
 
 
 # ------------------------------------------------------------------------------ body refines contract (generic)
-def verify_refines(reg, fn, contract, make, unit, compare_on_raise=True):
+def verify_refines(reg, fn, contract, make, unit, compare_on_raise=True, inline=None, inline_phantom=False):
     """Run the contract (as the callers see it) and the real body on identical generic inputs
     and require identical outcomes: same return value / same exception class, same bytes
     appended to every sink, same remainder of every source."""
@@ -261,7 +261,8 @@ def verify_refines(reg, fn, contract, make, unit, compare_on_raise=True):
 
     def run(ctx, res=res):
         a_body, a_spec, pairs, info = make(ctx)
-        it = make_interp(ctx, reg, exclude=fn)
+        it = make_interp(ctx, reg, exclude=fn, inline=inline)
+        it.inline_phantom = inline_phantom
         try:
             sv = contract.apply(it, list(a_spec), {})
             spec_out = Outcome("return", sv)
@@ -272,6 +273,7 @@ def verify_refines(reg, fn, contract, make, unit, compare_on_raise=True):
         if spec_out.kind != out.kind or (out.kind == "raise" and out.exc is not spec_out.exc):
             path_obligation(res, ctx, f"{unit}/outcome", z3.BoolVal(False), expected=repr(spec_out), got=repr(out), **info)
         else:
+            path_obligation(res, ctx, f"{unit}/outcome", z3.BoolVal(True), expected=repr(spec_out), got=repr(out), **info)
             if out.kind == "return":
                 path_obligation(res, ctx, f"{unit}/value", tobool(sym_eq(out.value, spec_out.value, ctx)),
                                 expected=repr(spec_out.value), got=repr(out.value), **info)
@@ -542,4 +544,6 @@ def verify_tz_aware(reg):
     def make(ctx):
         ts = SInt(ctx.int_const("timestamp", -(2 ** 63), 2 ** 63 - 1))
         return [ts], [ts], [], {"timestamp": ts}
-    return verify_refines(reg, fn, contract, make, "L1/reader/tz_aware_from_i64/refines-contract")
+    return verify_refines(reg, fn, contract, make, "L1/reader/tz_aware_from_i64/refines-contract",
+                          inline=lambda f: getattr(f, "__module__", "") in ("kio.static._phantom", "kio.static.primitive"),
+                          inline_phantom=True)
